@@ -47,6 +47,8 @@ ODS
                     gets number-rows-repeated=m
         (only numbers are written, nothing is materialised: n, m up to 10**9 and beyond are fine)
     "images_at": [[sheet, key], ...] (anchored to the sheet: table:shapes)  or  [[sheet, r, c, key], ...] (in a cell)
+    "comments_at": [[sheet, r, c, text], ...]  a cell comment (office:annotation, the first child of the cell, with
+                   dc:creator, dc:date and one text:p per line of text); the cell (also an empty one) must exist
 
 Notes on expressibility
     * a table inside a list item has no ODF representation (text:list-item holds text:p / text:h / text:list only)
@@ -1054,10 +1056,10 @@ class _Ods:
                     f'office:value="{s}"', ["%.2f %s" % (cell[1], code)])
         raise NotImplementedError(f"cell {k!r}")
 
-    def cell(self, cell, rep, extra: str = "") -> str:
+    def cell(self, cell, rep, extra: str = "", pre: str = "") -> str:
         ra = "" if rep is None else f' table:number-columns-repeated="{rep}"'
         if cell is None:
-            return f"<table:table-cell{ra}>{extra}</table:table-cell>" if extra else f"<table:table-cell{ra}/>"
+            return f"<table:table-cell{ra}>{pre}{extra}</table:table-cell>" if extra or pre else f"<table:table-cell{ra}/>"
         if not isinstance(cell, (list, tuple)) or not cell:
             raise ValueError(f"cell {cell!r}")
         formula = ""
@@ -1065,14 +1067,14 @@ class _Ods:
             formula = f' table:formula="{_esca(to_openformula(cell[1]))}"'
             cell = cell[2]
             if cell is None:
-                return f"<table:table-cell{formula}{ra}>{extra}</table:table-cell>"
+                return f"<table:table-cell{formula}{ra}>{pre}{extra}</table:table-cell>"
             if cell[0] == "fml":
                 raise ValueError("formula as the cached value of a formula")
         elif cell[0] == "err" and cell[1] in _ERR_FORMULA:
             formula = f' table:formula="{_esca(_ERR_FORMULA[cell[1]])}"'
         attrs, lines = self.value(cell)
         ps = "".join(f"<text:p>{_ptext(ln)}</text:p>" for ln in lines)
-        return f"<table:table-cell{formula}{attrs}{ra}>{ps}{extra}</table:table-cell>"
+        return f"<table:table-cell{formula}{attrs}{ra}>{pre}{ps}{extra}</table:table-cell>"
 
     def currency_styles(self) -> str:
         out = []
@@ -1106,6 +1108,14 @@ def ods(doc, images=None, opts=None) -> bytes:
             cell_imgs.setdefault(ent[0], {}).setdefault((ent[1], ent[2]), []).append(ent[3])
         else:
             raise ValueError("images_at entries are [sheet, key] or [sheet, row, col, key]")
+    cell_notes = {}
+    for ent in c.opts.get("comments_at") or []:
+        if len(ent) != 4:
+            raise ValueError("comments_at entries are [sheet, row, col, text]")
+        if (ent[1], ent[2]) in cell_notes.setdefault(ent[0], {}):
+            raise ValueError("comments_at: a cell has one comment")
+        cell_notes[ent[0]][(ent[1], ent[2])] = _chk(ent[3])
+    used_notes = 0
     used_imgs = 0
     body = []
     for si, sh in enumerate(units):
@@ -1164,7 +1174,13 @@ def ods(doc, images=None, opts=None) -> bytes:
                         extra += _image_frame(c, key, f'draw:style-name="gr1" draw:z-index="{c.nimg}" svg:x="0cm" '
                                                       f'svg:y="0cm"')
                         used_imgs += 1
-                rows_xml.append(w.cell(cell, rep, extra))
+                pre = ""
+                if (r, ci) in (cell_notes.get(si) or {}):
+                    lines = cell_notes[si][(r, ci)].replace("\r\n", "\n").replace("\r", "\n").split("\n")
+                    pre = (f'<office:annotation><dc:creator>{_AUTHOR}</dc:creator><dc:date>{_FIXED_DATE}</dc:date>'
+                           + "".join(f"<text:p>{_ptext(ln)}</text:p>" for ln in lines) + "</office:annotation>")
+                    used_notes += 1
+                rows_xml.append(w.cell(cell, rep, extra, pre) if pre else w.cell(cell, rep, extra))
                 width += 1 if rep is None else rep
             if not row:
                 rows_xml.append("<table:table-cell/>")
@@ -1184,6 +1200,8 @@ def ods(doc, images=None, opts=None) -> bytes:
     c.check_repeats_consumed()
     if used_imgs != len(c.opts.get("images_at") or []):
         raise ValueError("images_at names a sheet that does not exist")
+    if used_notes != len(c.opts.get("comments_at") or []):
+        raise ValueError("comments_at names a cell that does not exist")
     content = _doc_content(_ODS_AUTO + w.currency_styles(),
                            f'<office:spreadsheet>{"".join(body)}</office:spreadsheet>')
     styles = _doc_styles(_ODS_STYLES, _PAGE_LAYOUT_A4, _master_hf(meta, "Default", "", ""))
